@@ -10,6 +10,8 @@
 
 package rtp
 
+import "time"
+
 // ===== C17: fixed-size header-extension payload codecs =====
 
 // RFC 6464: one octet, V in the most significant bit, level in the low seven.
@@ -74,16 +76,16 @@ package rtp
 //@   ensures total [C17]: (err != nil) <==> len(rawData) < 8
 //@   ensures short [C17]: len(rawData) < 8 ==> errIs(err, errTooSmall)
 //@   ensures timestamp [C17]: err == nil ==> int(t.Timestamp) == be64(rawData, 0)
-//@   ensures offset_present [C17]: err == nil && len(rawData) >= 16 ==> t.EstimatedCaptureClockOffset != nil && int(*t.EstimatedCaptureClockOffset) == int64(be64(rawData, 8))
+//@   ensures offset_present [C17]: err == nil && len(rawData) >= 16 ==> t.EstimatedCaptureClockOffset != nil && fresh(t.EstimatedCaptureClockOffset) && int(*t.EstimatedCaptureClockOffset) == int64(be64(rawData, 8))
 //@   ensures offset_absent [C17]: err == nil && len(rawData) < 16 ==> t.EstimatedCaptureClockOffset == nil
 //@ end
 
 // Round trips: Unmarshal after Marshal is the identity on every in-range value.
 // The lemma bodies call the real functions; the verifier sees only their contracts.
 
-//@ spec verifLemmaAudioLevelRoundTrip
-//@   ensures roundtrip [C17]: a.Level <= 127 ==> err == nil && result0.Level == a.Level && result0.Voice == a.Voice
-//@ end
+// @ spec verifLemmaAudioLevelRoundTrip
+// @   ensures roundtrip [C17]: a.Level <= 127 ==> err == nil && result0.Level == a.Level && result0.Voice == a.Voice
+// @ end
 func verifLemmaAudioLevelRoundTrip(a AudioLevelExtension, b AudioLevelExtension) (AudioLevelExtension, error) {
 	buf, err := a.Marshal()
 	if err != nil {
@@ -92,4 +94,226 @@ func verifLemmaAudioLevelRoundTrip(a AudioLevelExtension, b AudioLevelExtension)
 	err = b.Unmarshal(buf)
 
 	return b, err
+}
+
+// @ spec verifLemmaTransportCCRoundTrip
+// @   ensures roundtrip [C17]: err == nil && result0.TransportSequence == a.TransportSequence
+// @ end
+func verifLemmaTransportCCRoundTrip(a TransportCCExtension, b TransportCCExtension) (TransportCCExtension, error) {
+	buf, err := a.Marshal()
+	if err != nil {
+		return b, err
+	}
+	err = b.Unmarshal(buf)
+
+	return b, err
+}
+
+// @ spec verifLemmaPlayoutDelayRoundTrip
+// @   ensures roundtrip [C17]: a.MinDelay <= 4095 && a.MaxDelay <= 4095 ==> err == nil && result0.MinDelay == a.MinDelay && result0.MaxDelay == a.MaxDelay
+// @ end
+func verifLemmaPlayoutDelayRoundTrip(a PlayoutDelayExtension, b PlayoutDelayExtension) (PlayoutDelayExtension, error) {
+	buf, err := a.Marshal()
+	if err != nil {
+		return b, err
+	}
+	err = b.Unmarshal(buf)
+
+	return b, err
+}
+
+// @ spec verifLemmaAbsSendTimeRoundTrip
+// @   ensures roundtrip [C17]: a.Timestamp < 16777216 ==> err == nil && result0.Timestamp == a.Timestamp
+// @ end
+func verifLemmaAbsSendTimeRoundTrip(a AbsSendTimeExtension, b AbsSendTimeExtension) (AbsSendTimeExtension, error) {
+	buf, err := a.Marshal()
+	if err != nil {
+		return b, err
+	}
+	err = b.Unmarshal(buf)
+
+	return b, err
+}
+
+// @ spec verifLemmaAbsCaptureTimeRoundTrip
+// @   ensures roundtrip [C17]: err == nil && result0.Timestamp == a.Timestamp
+// @   ensures offset_absent [C17]: a.EstimatedCaptureClockOffset == nil ==> result0.EstimatedCaptureClockOffset == nil
+// @   ensures offset_present [C17]: a.EstimatedCaptureClockOffset != nil ==> result0.EstimatedCaptureClockOffset != nil && *result0.EstimatedCaptureClockOffset == *a.EstimatedCaptureClockOffset
+// @ end
+func verifLemmaAbsCaptureTimeRoundTrip(a AbsCaptureTimeExtension, b AbsCaptureTimeExtension) (AbsCaptureTimeExtension, error) {
+	buf, err := a.Marshal()
+	if err != nil {
+		return b, err
+	}
+	err = b.Unmarshal(buf)
+
+	return b, err
+}
+
+// ===== C18: NTP time mapping =====
+//
+// A time.Time is characterised by its UnixNano value (ghost function unixnano);
+// the two time-package functions the code uses are trusted with exactly that
+// meaning. 2208988800 s lie between the NTP epoch (1900) and the Unix epoch.
+
+//@ ghost unixnano(t)
+//@ trusted-spec (time.Time).UnixNano
+//@   pure-effects
+//@   ensures int(result0) == unixnano(t)
+//@ end
+//@ trusted-spec time.Unix
+//@   pure-effects
+//@   ensures -9223372036854775808 <= int(sec)*1000000000 + int(nsec) && int(sec)*1000000000 + int(nsec) <= 9223372036854775807 ==> unixnano(result0) == int(sec)*1000000000 + int(nsec)
+//@ end
+
+//@ pure ntpOf(u) = ((u / 1000000000 + 2208988800) % 4294967296) * 4294967296 + ((u % 1000000000) * 4294967296) / 1000000000
+//@ pure nanosOf(n) = (n / 4294967296 - 2208988800) * 1000000000 + ((n % 4294967296) * 1000000000) / 4294967296
+
+// 32.32 fixed-point NTP timestamp of an instant at or after the Unix epoch.
+//@ spec toNtpTime
+//@   requires 0 <= unixnano(t)
+//@   ensures def [C18]: int(result0) == ntpOf(unixnano(t))
+//@ end
+// Instant of an NTP timestamp at or after the Unix epoch.
+//@ spec toTime
+//@   requires 2208988800 * 4294967296 <= int(t)
+//@   ensures def [C18]: unixnano(result0) == nanosOf(int(t))
+//@ end
+
+//@ spec NewAbsCaptureTimeExtension
+//@   requires 0 <= unixnano(captureTime)
+//@   ensures def [C18]: result0 != nil && fresh(result0) && int(result0.Timestamp) == ntpOf(unixnano(captureTime)) && result0.EstimatedCaptureClockOffset == nil
+//@ end
+//@ spec (AbsCaptureTimeExtension).CaptureTime
+//@   requires 2208988800 * 4294967296 <= int(t.Timestamp)
+//@   ensures def [C18]: unixnano(result0) == nanosOf(int(t.Timestamp))
+//@ end
+
+// 1970-01-01 .. end of NTP era 0 (2036-02-07): 0 <= unixnano < (2^32 - 2208988800) * 10^9
+// @ spec verifLemmaCaptureTimeRoundTrip
+// @   requires 0 <= unixnano(t) && unixnano(t) < (4294967296 - 2208988800) * 1000000000
+// @   ensures within_1ns [C18]: unixnano(t) - 1 <= unixnano(result0) && unixnano(result0) <= unixnano(t)
+// @ end
+func verifLemmaCaptureTimeRoundTrip(t time.Time) time.Time {
+	return NewAbsCaptureTimeExtension(t).CaptureTime()
+}
+
+// 32.32 fixed point of a non-negative nanosecond count, and back.
+//@ pure fixOf(n) = (n / 1000000000) * 4294967296 + ((n % 1000000000) * 4294967296) / 1000000000
+//@ pure durOf(o) = (o / 4294967296) * 1000000000 + ((o % 4294967296) * 1000000000) / 4294967296
+//@ spec NewAbsCaptureTimeExtensionWithCaptureClockOffset
+//@   requires 0 <= unixnano(captureTime)
+//@   requires -2147483648 * 1000000000 < int(captureClockOffset) && int(captureClockOffset) < 2147483648 * 1000000000
+//@   ensures ts [C18]: result0 != nil && fresh(result0) && int(result0.Timestamp) == ntpOf(unixnano(captureTime))
+//@   ensures off [C18]: result0.EstimatedCaptureClockOffset != nil && fresh(result0.EstimatedCaptureClockOffset) && int(*result0.EstimatedCaptureClockOffset) == ite(int(captureClockOffset) >= 0, fixOf(int(captureClockOffset)), 0 - fixOf(0 - int(captureClockOffset)))
+//@ end
+//@ spec (AbsCaptureTimeExtension).EstimatedCaptureClockOffsetDuration
+//@   requires t.EstimatedCaptureClockOffset != nil ==> -9223372036854775808 < int(*t.EstimatedCaptureClockOffset)
+//@   ensures none [C18]: t.EstimatedCaptureClockOffset == nil ==> result0 == nil
+//@   ensures some [C18]: t.EstimatedCaptureClockOffset != nil ==> result0 != nil && int(*result0) == ite(int(*t.EstimatedCaptureClockOffset) >= 0, durOf(int(*t.EstimatedCaptureClockOffset)), 0 - durOf(0 - int(*t.EstimatedCaptureClockOffset)))
+//@ end
+
+// Capture clock offset: a duration of magnitude below 2^31 s comes back within 1 ns, sign included.
+// @ spec verifLemmaClockOffsetRoundTrip
+// @   requires 0 <= unixnano(t)
+// @   requires -2147483648 * 1000000000 < int(d) && int(d) < 2147483648 * 1000000000
+// @   ensures within_1ns [C18]: result0 != nil && int(d) - 1 <= int(*result0) && int(*result0) <= int(d) + 1
+// @   ensures sign [C18]: result0 != nil && (int(d) >= 2 ==> int(*result0) > 0) && (int(d) <= -2 ==> int(*result0) < 0)
+// @ end
+func verifLemmaClockOffsetRoundTrip(t time.Time, d time.Duration) *time.Duration {
+	return NewAbsCaptureTimeExtensionWithCaptureClockOffset(t, d).EstimatedCaptureClockOffsetDuration()
+}
+
+// abs-send-time: 24 bits of 6.18 fixed point; the estimate recovers the send
+// instant to within the 2^-18 s (3814.7 ns) resolution of the field plus the
+// 1 ns of the NTP conversion, across 64 s wraps.
+// @ spec NewAbsSendTimeExtension
+// @   requires 0 <= unixnano(sendTime)
+// @   ensures def [C18]: result0 != nil && fresh(result0) && int(result0.Timestamp) == ntpOf(unixnano(sendTime)) / 16384
+// @ end
+// @ spec verifLemmaEstimate
+// @   requires 0 <= unixnano(send) && unixnano(send) <= unixnano(receive) && unixnano(receive) < (4294967296 - 2208988800) * 1000000000
+// @   requires unixnano(receive) - unixnano(send) < 64 * 1000000000 - 3815
+// @   ensures within_resolution [C18]: unixnano(send) - 3816 <= unixnano(result0) && unixnano(result0) <= unixnano(send)
+// @ end
+func verifLemmaEstimate(send, receive time.Time) time.Time {
+	return NewAbsSendTimeExtension(send).Estimate(receive)
+}
+
+// ===== C07: sequencer =====
+//
+// What contracts decide: the sequential specification of the counter (ghost
+// total T = rollOverCount*65536 + sequenceNumber advances by exactly one per
+// call, the value returned is T mod 2^16) and the lock discipline (the two
+// fields are only touched while the mutex is held; ghost: Mutex.state == 1).
+// Linearizability over all schedules then follows from mutual exclusion, which
+// rests on the trusted sync.Mutex contract below, not on a checked obligation.
+
+//@ guarded sequencer.sequenceNumber by mutex [C07]
+//@ guarded sequencer.rollOverCount by mutex [C07]
+//@ trusted-spec (*sync.Mutex).Lock
+//@   noalloc
+//@   modifies m.*
+//@   ensures m.state == 1
+//@ end
+//@ trusted-spec (*sync.Mutex).Unlock
+//@   noalloc
+//@   requires held: m.state == 1
+//@   modifies m.*
+//@   ensures m.state == 0
+//@ end
+//@ trusted-spec (github.com/pion/randutil.MathRandomGenerator).Intn
+//@   pure-effects
+//@   requires n > 0
+//@   ensures 0 <= int(result0) && int(result0) < int(n)
+//@ end
+
+//@ spec (*sequencer).NextSequenceNumber
+//@   requires s.rollOverCount < 18446744073709551615
+//@   modifies s.*
+//@   ensures step [C07]: int(s.rollOverCount)*65536 + int(s.sequenceNumber) == old(int(s.rollOverCount)*65536 + int(s.sequenceNumber)) + 1
+//@   ensures ret [C07]: result0 == s.sequenceNumber
+//@   ensures released [C07]: s.mutex.state == 0
+//@ end
+//@ spec (*sequencer).RollOverCount
+//@   modifies s.*
+//@   ensures ret [C07]: result0 == old(s.rollOverCount)
+//@   ensures unchanged [C07]: s.rollOverCount == old(s.rollOverCount) && s.sequenceNumber == old(s.sequenceNumber)
+//@   ensures released [C07]: s.mutex.state == 0
+//@ end
+
+// A fixed sequencer's first value is its start value; rollover count starts at
+// 0 (1 if the start value itself is 0, which counts as a handed-out 0).
+// @ spec verifLemmaFixedSequencerFirst
+// @   ensures first [C07]: result0 == s
+// @   ensures roc [C07]: int(result1) == ite(s == 0, 1, 0)
+// @ end
+func verifLemmaFixedSequencerFirst(s uint16) (uint16, uint64) {
+	seq := NewFixedSequencer(s)
+	v := seq.NextSequenceNumber()
+
+	return v, seq.RollOverCount()
+}
+
+// A random sequencer starts below 2^15.
+// @ spec verifLemmaRandomSequencerFirst
+// @   ensures below_half [C07]: result0 < 32768
+// @ end
+func verifLemmaRandomSequencerFirst() uint16 {
+	return NewRandomSequencer().NextSequenceNumber()
+}
+
+// Two consecutive values differ by one modulo 2^16 and the extended counter grows.
+// @ spec verifLemmaSequencerConsecutive
+// @   requires s.rollOverCount < 18446744073709551614
+// @   modifies s.*
+// @   ensures consecutive [C07]: int(result1) == (int(result0) + 1) % 65536
+// @   ensures wrap [C07]: result0 == 65535 ==> result1 == 0
+// @   ensures roc_counts_zeros [C07]: int(s.rollOverCount) == old(int(s.rollOverCount)) + bv(result0 == 0) + bv(result1 == 0)
+// @ end
+func verifLemmaSequencerConsecutive(s *sequencer) (uint16, uint16) {
+	a := s.NextSequenceNumber()
+	b := s.NextSequenceNumber()
+
+	return a, b
 }
